@@ -383,6 +383,8 @@ func loopRule(p *load.Program, s *oblig.Set) {
 		end       string
 		err1      bool
 		lineEmpty bool
+		accumulated bool // LINE1 was appended to the pending input
+		scanned     bool // the driver looked at the bytes of the line itself (no strings.Count)
 	}
 	var all []res
 	o := &absint.Oracle{}
@@ -412,9 +414,30 @@ func loopRule(p *load.Program, s *oblig.Set) {
 		// whether the line that came with the error is empty is one choice per
 		// path, however the code spells the test
 		lineEmpty := -1
+		loopIter := map[string]int{}
+		in.Hooks.BinOp = func(in *absint.Interp, op token.Token, x, y absint.Val, t types.Type) (absint.Val, bool) {
+			if op == token.ADD && (strings.Contains(absint.Key(x), "LINE1") || strings.Contains(absint.Key(y), "LINE1")) {
+				r.accumulated = true // the line is joined to the pending input
+			}
+			return nil, false
+		}
 		in.Hooks.Branch = func(in *absint.Interp, cond absint.Val, site ssa.Instruction) (bool, bool) {
-			isTest, saysEmpty := emptinessTest(absint.Key(cond), "LINE1")
+			ck := absint.Key(cond)
+			isTest, saysEmpty := emptinessTest(ck, "LINE1")
 			if !isTest {
+				// a loop over the bytes of the line: two rounds, then out
+				if strings.Contains(ck, "len(LINE1)") && (strings.HasPrefix(ck, "<(") || strings.HasPrefix(ck, ">(") || strings.HasPrefix(ck, "<=(") || strings.HasPrefix(ck, ">=(")) {
+					p := fmt.Sprint(site.Pos())
+					loopIter[p]++
+					r.scanned = true
+					if loopIter[p] > 2 {
+						// leave the loop: the comparison is false for "<"/"<=" headers
+						return strings.HasPrefix(ck, ">"), true
+					}
+				}
+				if strings.Contains(ck, "index(LINE1") || strings.Contains(ck, "strindex(LINE1") {
+					r.scanned = true
+				}
 				return false, false
 			}
 			if lineEmpty < 0 {
@@ -476,21 +499,11 @@ func loopRule(p *load.Program, s *oblig.Set) {
 		if !r.err1 {
 			// a line that was read without error and completes a statement is
 			// handed to processInput whatever it looks like (P3b)
-			completeNE := !r.lineEmpty
-			for _, c := range r.conds {
-				if strings.Contains(c, "count(") && (strings.HasPrefix(c, "==(") && strings.HasSuffix(c, ":= false") || strings.HasPrefix(c, "!=(") && strings.HasSuffix(c, ":= true")) {
-					completeNE = false
-				}
-			}
-			if completeNE {
+			// whatever it looks like, the line joins the pending input (and is
+			// parsed with it once the statement is complete)
+			if !r.lineEmpty {
 				nLine++
-				hasL := false
-				for _, pi := range r.processed {
-					if strings.Contains(pi, "LINE1") {
-						hasL = true
-					}
-				}
-				if !hasL && dropped == nil {
+				if !r.accumulated && dropped == nil {
 					dropped = r.conds
 				}
 			}
@@ -510,6 +523,17 @@ func loopRule(p *load.Program, s *oblig.Set) {
 		if !complete || !nonEmpty {
 			continue
 		}
+		if r.scanned {
+			// the balance was computed by the driver's own scan of the line: which
+			// paths are "complete" is not visible here; such a path counts only as
+			// a witness that the line can be processed
+			for _, pi := range r.processed {
+				if strings.Contains(pi, "LINE1") {
+					found = true
+				}
+			}
+			continue
+		}
 		found = true
 		has := false
 		for _, pi := range r.processed {
@@ -525,11 +549,11 @@ func loopRule(p *load.Program, s *oblig.Set) {
 	keyB := "node.Loop / every line read reaches the parser"
 	switch {
 	case dropped != nil:
-		s.Bad("P3", keyB, pos, "a line that was read without error and leaves no block, bracket or quote open is not handed to processInput: the driver drops source text on its own judgement (such a line may be part of a multi-line string literal, or mean something the driver does not know)", dropped...)
+		s.Bad("P3", keyB, pos, "a line that was read without error is not joined to the pending input: the driver drops source text on its own judgement (such a line may be part of a multi-line string literal, or mean something the driver does not know)", dropped...)
 	case nLine == 0:
 		s.Unk("P3", keyB, pos, "no path found on which a complete line is read without error")
 	default:
-		s.OK("P3", keyB, pos, fmt.Sprintf("%d path(s): a complete line read without error is processed", nLine))
+		s.OK("P3", keyB, pos, fmt.Sprintf("%d path(s): every non-empty line read without error is joined to the pending input", nLine))
 	}
 	switch {
 	case found && okP3:
